@@ -360,12 +360,12 @@ func c42LookupShape(c *Ctx, tabLen int64) (seed uint32, shift uint32, mask uint3
 			x, sh = y, k
 		}
 		call, isCall := HtmStrip(x).(*ssa.Call)
-		if !isCall || CalleeName(&call.Call) != "html/atom.fnv" || len(call.Call.Args) != 2 {
+		if !isCall || CalleeName(&call.Call) != "html/atom.fnv" || len(BaselineArgs(&call.Call)) != 2 {
 			bad = "table index `" + Term(ia.Index) + "` is not derived from fnv(seed, s)"
 			return
 		}
-		sd, isConst := HtmConstInt(call.Call.Args[0])
-		if !isConst || call.Call.Args[1] != ssa.Value(fn.Params[0]) {
+		sd, isConst := HtmConstInt(BaselineArgs(&call.Call)[0])
+		if !isConst || BaselineArgs(&call.Call)[1] != ssa.Value(fn.Params[0]) {
 			bad = "fnv is not called with a constant seed and the looked-up bytes: " + Term(call)
 			return
 		}
